@@ -8,12 +8,14 @@ import common
 import rfigc_util as ru
 from common import hx
 
-LEAN_MODULES = ["Pff.Props.C05", "Pff.Props.Csv"]
+LEAN_MODULES = ["Pff.Props.C05", "Pff.Props.Csv", "Pff.Props.Path"]
 PROP_MODULE = "Pff.Props.C05"
 THEOREMS = ["Pff.Rfigc.C05_rule", "Pff.Rfigc.C05_clean", "Pff.Rfigc.C05_exact", "Pff.Rfigc.C05_single",
             "Pff.Csv.C05_csv_roundtrip",
             "Pff.Csv.C05_csv_cr_witness",
-            "Pff.Csv.C05_db_roundtrip"]
+            "Pff.Csv.C05_db_roundtrip",
+            "Pff.Path.PATH_abspath_good", "Pff.Path.PATH_gen_root_independent", "Pff.Path.PATH_mount_eq", "Pff.Path.PATH_join_injective",
+            "Pff.Path.PATH_lookup_relocated", "Pff.Path.PATH_relFS_nodup", "Pff.Path.PATH_single_file"]
 MODELLED = [("pyFileFixity/rfigc.py", "main"), ("pyFileFixity/rfigc.py", "generate_hashes"), ("pyFileFixity/lib/_compat.py", "_csv_writer")]
 TRUSTED_BASE = [
     "Lean 4.33.0 kernel; axioms per theorem under coverage.theorems (subset of propext, Classical.choice, Quot.sound)",
@@ -168,6 +170,14 @@ def run(oc, tier, seed, model_available, escalate):
         for o, v in opts.items():
             if v:
                 oc.count("opt:" + o)
+    # ---- path layer: the repo's fullpath / path2unix / recwalk / relpath_posix and the os.path functions under them vs the Lean model
+    # (Pff.Path), and the relocation statement on the real functions
+    import path_x
+    pl, pi, pbad = path_x.cases(rng, (400 if tier == "quick" else 6000) * (2 if escalate else 1), common.scratch(), oc)
+    lines += pl
+    impl += pi
+    for b_ in pbad[:3]:
+        oc.violations.append({"input": {k: v for k, v in b_.items() if k != "what"}, "what": b_["what"]})
     # ---- csv layer: the repo's writer and Python's reader with the tools' parameters vs the Lean model (Pff.Csv), and the real round trip
     import csv_x
     cl, ci, cbad = csv_x.cases(rng, (150 if tier == "quick" else 2500) * (2 if escalate else 1), os.path.join(d, "csv"), oc)
